@@ -183,10 +183,26 @@ def monotone_facts(f, p):
     return out
 
 
+def case_facts(f, cond, k, b, p):
+    """the edge of a switch into `case v:` says  condition == v"""
+    blk = f.cfg.blocks[b]
+    if blk.tk != 'SwitchStmt' or k >= len(blk.succ) or blk.succ[k] is None:
+        return []
+    lab = f.s(f.cfg.blocks[blk.succ[k]].label) if f.cfg.blocks[blk.succ[k]].label is not None else None
+    if lab is None or lab['k'] != 'CaseStmt' or not isinstance(lab.get('v'), int):
+        return []
+    cp = f.cfg.point_of(cond)
+    a = form(f, cond, cp)
+    if a is None:
+        return []
+    return [g for g in (a - Aff(lab['v']), Aff(lab['v']) - a) if stable_syms(f, g, cp, p)]
+
+
 def facts_at(f, p):
     out = []
     for cond, k, b in f.cfg.controlling_branches(p):
         out += cond_facts(f, cond, k, p)
+        out += case_facts(f, cond, k, b, p)
     out += monotone_facts(f, p)
     out += min_facts(f, p)
     out += align_facts(f, p, out)
